@@ -110,13 +110,13 @@ package xmlenc
 //@ ensures[C10,C08] nonnil: err == nil ==> result != nil
 //@ -- framing: what is encrypted is the padded plaintext, under an IV drawn in this call, and the
 //@ -- emitted cipher value is IV || ciphertext (the W3C xmlenc layout)
-//@ assert@call[C10] CryptBlocks #1 (mode cipher.BlockMode, dst []byte, src []byte) pads_plaintext:
+//@ assert@call[C10,C08] CryptBlocks #1 (mode cipher.BlockMode, dst []byte, src []byte) pads_plaintext:
 //@    len(src) >= len(plaintext) && forall(0, len(plaintext), func(k int) bool { return src[k] == plaintext[k] })
 //@ assert@call[C10,C08] Read #2 (r io.Reader, p []byte) uses iv []byte, block cipher.Block iv_drawn_here:
 //@    sameSlice(p, iv) && len(p) == block.BlockSize()
 //@ assert@call[C10,C08] NewCBCEncrypter #1 (b cipher.Block, ivArg []byte) uses iv []byte fresh_iv:
 //@    len(ivArg) == b.BlockSize() && sameSlice(ivArg, iv)
-//@ assert@call[C10] EncodeToString #1 (enc *base64.Encoding, out []byte) uses iv []byte, padded=plaintext []byte iv_prefix:
+//@ assert@call[C10,C08] EncodeToString #1 (enc *base64.Encoding, out []byte) uses iv []byte, padded=plaintext []byte iv_prefix:
 //@    len(out) == len(iv) + len(padded) && forall(0, len(iv), func(k int) bool { return out[k] == iv[k] })
 
 //@ contract (GCM).Encrypt
